@@ -25,6 +25,14 @@ def run(pid, tier, seed):
         return vlib.generate_and_replay("RBTreeMC", "%s-%s" % (pid, kind), consts, exe, exe_args=("replay", kind),
                                         invariants=["Valid"], workers=6, timeout=2400, heap="8g")
 
+    def simulated(kind):
+        # random (TLC simulation mode) longer sequences over more keys: deeper rotation / recolouring cases
+        n = 14 if q else 24
+        consts = {"Keys": tla_set(range(1, n + 1)), "Depth": n, "Owning": "TRUE" if kind == "owning" else "FALSE", "Record": "TRUE"}
+        return vlib.generate_and_replay("RBTreeMC", "%s-sim-%s" % (pid, kind), consts, exe, exe_args=("replay", kind),
+                                        invariants=["Valid"], workers=2, timeout=2400, heap="4g",
+                                        simulate=1500 if q else 20000, depth=n + 1, seed=seed)
+
     def exhaustive(kind):
         # no histories: states merge, so all insertion orders over more keys are covered
         n = 7 if q else 9
@@ -49,7 +57,7 @@ def run(pid, tier, seed):
                                           timeout=2400)
 
     with ThreadPoolExecutor(max_workers=6) as ex:
-        gf = [ex.submit(gen, k) for k in ("owning", "chain")]
+        gf = [ex.submit(gen, k) for k in ("owning", "chain")] + [ex.submit(simulated, k) for k in ("owning", "chain")]
         xf = [ex.submit(exhaustive, k) for k in ("owning", "chain")]
         tf = ex.submit(val, tp)
         gr = [f.result() for f in gf]
